@@ -58,7 +58,7 @@ func Repartition(slice Slice, partition interface{}) Slice {
 	if !ok {
 		typecheck.Panicf(1, "repartition: not a function: %T", partition)
 	}
-	if !typecheck.Equal(fn.In, expectArg) || !typecheck.Equal(fn.Out, expectRet) {
+	if fn.IsVariadic || !typecheck.Equal(fn.In, expectArg) || !typecheck.Equal(fn.Out, expectRet) {
 		typecheck.Panicf(1, "repartition: expected %s, got %T", slicetype.Signature(expectArg, expectRet), partition)
 	}
 	part := func(ctx context.Context, frame frame.Frame, nshard int, shards []int) {
